@@ -307,6 +307,9 @@ func init() {
 			// connection when an answer is lost, but never while packets of
 			// the peer keep arriving inside the pong timeout
 			{Scenario: "kalive/lossy/ka=2s,1s/R=300ms/idle=20s", Budgets: bs(B(0, 2)), Split: 1},
+			// ping below pong and a round trip between the two: the pong
+			// timeout, not the ping interval, is what a reply has to beat
+			{Scenario: "kalive/ka=1s,3s/lat=700ms/H=4s/R=4s/idle=30s", Budgets: bs(B(1, 0)), Filter: "tickeronly", Split: 1},
 			// (the long idle runs last: they are the ones a loaded machine
 			// cuts short)
 			{Scenario: "kalive/lat=250ms", Budgets: bs(B(1, 0)), Split: 1},
